@@ -125,15 +125,18 @@ class StubMaildir:
     def __init__(self, name):
         self.name = name
         self.msgs = {}
+        self.payload = {}
         self.n = 0
 
     def add(self, msg):
         self.n += 1
         key = '%s%d' % (self.name, self.n)
         self.msgs[key] = (msg.get_subdir(), msg.get_info(), int(msg.get_date()))
+        self.payload[key] = msg.get_payload()
         return key
 
     def get_message_metadata(self, key):
+        """as pymap's Maildir.get_message_metadata: "the message contents are not read from disk\""""
         from mailbox import MaildirMessage
         subdir, info, date = self.msgs[key]
         msg = MaildirMessage()
@@ -142,13 +145,19 @@ class StubMaildir:
         msg.set_date(date)
         return msg
 
+    def get_message(self, key):
+        msg = self.get_message_metadata(key)
+        msg.set_payload(self.payload.get(key))
+        return msg
+
     def move_message(self, key, dest, dest_subdir):
         subdir, info, date = self.msgs.pop(key)
         dest.msgs[key] = (dest_subdir, info, date)
+        dest.payload[key] = self.payload.pop(key, None)
         return key + ':' + info if info else key
 
 
-def scenario(g, install, ops, nxt0, held, pick, advance, check, release_within=3):
+def scenario(g, install, ops, nxt0, held, pick, advance, check, release_within=3, content_errors=None):
     """returns a definite error string or None; symbolic obligations go to check()"""
     UidList, Record, MailboxData, ObjectId = g['UidList'], g['Record'], g['MaildirMailboxData'], g['ObjectId']
     AM = g['AppendMessage']
@@ -168,6 +177,7 @@ def scenario(g, install, ops, nxt0, held, pick, advance, check, release_within=3
             m = MaildirMessage()
             m.set_subdir('cur')
             m.set_date(1000 + j)
+            m.set_payload('content of source message %d\r\n' % j)
             key = smd.add(m)
             ul._records[j + 1] = Record(j + 1, {}, key + ':2,')
         ul.file_write()
@@ -244,6 +254,16 @@ def scenario(g, install, ops, nxt0, held, pick, advance, check, release_within=3
                 return 'the message added by %s (task %d) has no record in the final uidlist' % (ops[i], i)
             if not any(bool(r.uid == u) for r in mine):
                 return 'the UID reported for %s (task %d) is recorded for a different message' % (ops[i], i)
+        if content_errors is not None:
+            # C03: a copy / moved message carries the content of its source
+            for i, op in enumerate(ops):
+                if op == 'append' or results[i][0] != 'done' or results[i][1] is None:
+                    continue
+                want = 'content of source message %d\r\n' % int(op[-1])
+                for k, (_, _, date) in dmd.msgs.items():
+                    if date == want_date[i] and dmd.payload.get(k) != want:
+                        content_errors.append('%s: the message in the destination holds %r instead of the source content'
+                                              % (op, dmd.payload.get(k)))
         old = [r for r in recs if bool(r.key == old_key)]
         if len(old) != 1:
             return 'an earlier record disappeared from the uidlist (or is listed twice)'
@@ -265,7 +285,7 @@ def bindings():
     return g
 
 
-def harness(g_ref, ntasks, release_within, max_uid=120):
+def harness(g_ref, ntasks, release_within, max_uid=120, content=False):
     def fn(eng):
         from pysymex import loader, B, AND, Outcome
         ops = [OPS[eng.choose('op%d' % i, len(OPS))] for i in range(ntasks)]
@@ -295,18 +315,22 @@ def harness(g_ref, ntasks, release_within, max_uid=120):
         wit = lambda m: {'ops': ops, 'next_uid': nxt0.eval(m), 'held': held, 'picks': picks,  # noqa: E731
                          'clock': [c.eval(m) if hasattr(c, 'eval') else c for c in clockvals],
                          'release_within': release_within}
+        cerrs = [] if content else None
         err = scenario(g_ref, install, ops, nxt0, held, pick, advance,
-                       lambda c, msg='': obligations.append(B(c)), release_within)
+                       lambda c, msg='': obligations.append(B(c)), release_within, cerrs)
+        if content:
+            return Outcome(not cerrs, witness=wit, info=(cerrs or [None])[0])
         if err is not None:
             return Outcome(False, witness=wit, info=err)
         return Outcome(AND(*obligations), witness=wit)
     return fn
 
 
-def replay(w):
+def replay(w, content=False):
     """the same schedule on the uninstrumented modules (module attributes patched)"""
     if w.get('skip'):
         return []
+    cerrs = [] if content else None
     import types
     import pymap.concurrent as C
     import pymap.backend.maildir.io as IO
@@ -339,7 +363,9 @@ def replay(w):
         if not c:
             bad.append(msg or 'obligation failed')
     err = scenario(g, install, w['ops'], w['next_uid'], w['held'], lambda kind, n: picks.pop(0) if picks else 0,
-                   lambda: clockq.pop(0) if clockq else 0, check, w.get('release_within', 3))
+                   lambda: clockq.pop(0) if clockq else 0, check, w.get('release_within', 3), cerrs)
+    if content:
+        return cerrs
     if err:
         bad.append(err)
     return bad
